@@ -53,6 +53,20 @@ PROPS = {
         "trusted": BER_TRUST,
         "assumptions": ["filters are compared semantically: the delivered filter string must recompile to the client's filter bytes"],
     },
+    "C03": {
+        "lean": ["GldapModel.Props.C03"],
+        "audit": "GldapModel/Audit/C03.lean",
+        "inventory": ["Mux.serve", "responseApplicationCode", "Mux.Bind", "Mux.Unbind", "Mux.Search", "Mux.ExtendedOperation",
+                      "Mux.Modify", "Mux.Add", "Mux.Delete", "Mux.DefaultRoute", "NewMux", "baseRoute.handler", "baseRoute.op",
+                      "baseRoute.match", "deleteRoute.match", "addRoute.match", "modifyRoute.match", "simpleBindRoute.match",
+                      "extendedRoute.match", "searchRoute.match", "newRequest", "WithBaseDN", "WithFilter", "WithScope",
+                      "getRouteOpts", "routeDefaults"],
+        "streams": [
+            {"stream": "mux", "n_quick": 30000, "n_thorough": 300000},
+        ],
+        "trusted": BER_TRUST + ["strings.EqualFold modelled for ASCII only (criteria alphabets are ASCII)"],
+        "assumptions": ["route criteria and request strings are ASCII in the theorems' EqualFold model"],
+    },
     "C04": {
         "lean": ["GldapModel.Props.C04"],
         "audit": "GldapModel/Audit/C04.lean",
